@@ -226,7 +226,7 @@ class QModel:
         # stats ADT + counter fields via the public getters
         self.stats_adt = None
         for f in adt_fields(cad, self.worker):
-            if f['ty'] in cad.adts and any('Atomic<u64>' in x['ty'] for x in nested_fields(cad, f['ty'])):
+            if f['ty'] in cad.adts and any('Atomic<u' in x['ty'] for x in nested_fields(cad, f['ty'])):
                 self.stats_adt = f['ty']
                 self.f_stats = f['name']
         if self.stats_adt is None:
@@ -235,6 +235,7 @@ class QModel:
         # which atomic each public getter reads; a getter that is not a plain load (a derived figure) leaves its counter
         # unknown - only the rules that talk about that counter fail closed on it (need_counters)
         self.missing_counters = []
+        self.counter_width = {}
         for name in ('submitted', 'drained', 'panics'):
             fld = self._getter_field(name)
             if fld is None:
@@ -300,9 +301,11 @@ class QModel:
         rts = ret_terms(T, [0])
         if len(rts) != 1:
             return None
-        r = list(rts)[0]
+        from .sockets import peel_widening
+        r, w_ = peel_widening(list(rts)[0])
         if not term_callee_is(r, 'core::sync::atomic::Atomic::load'):
             return None
+        self._cw_seen = w_
         loc = peel(r[2][0])
         names = set(f['name'] for f in adt_fields(self.cad, self.stats_adt))
         while True:
@@ -310,6 +313,8 @@ class QModel:
                 loc = loc[1]
             elif loc[0] == 'field':
                 if loc[2] in names and self._is_stats_base(loc[1]):
+                    from .sockets import atomic_width
+                    self.counter_width[name] = atomic_width(self.cad, self.stats_adt, loc[2], self._cw_seen)
                     return loc[2]
                 loc = loc[1]
             else:
